@@ -7,14 +7,21 @@ import parseinputs
 
 LEVEL = "proof"
 META = dict(
-    technique="PARTIAL: Lean 4 theorems about the parser's bookkeeping (cursor never leaves the buffer, Depth_Counter bounds the recursion and reports the limit, parse_internal returns a tree only for fully consumed input) and about its recursion structure: the call graph of ChaiScript_Parser is regenerated from the source on every run and the kernel checks that every cycle passes through a Depth_Counter, from which the native parse stack is bounded for every input; the cursor model is tied to the real Position by the C20 correspondence; the parser as a whole is explored, not proved: the real parser runs under AddressSanitizer+UBSan on generated, mutated, truncated and pathological inputs",
+    technique="PARTIAL: Lean 4 theorems about the parser's bookkeeping (the white-space / comment skipper every token starts with: stays in the buffer, terminates, drops only blanks and whole comments, for every byte string; cursor never leaves the buffer, Depth_Counter bounds the recursion and reports the limit, parse_internal returns a tree only for fully consumed input) and about its recursion structure: the call graph of ChaiScript_Parser is regenerated from the source on every run and the kernel checks that every cycle passes through a Depth_Counter, from which the native parse stack is bounded for every input; the cursor model is tied to the real Position by the C20 correspondence; the parser as a whole is explored, not proved: the real parser runs under AddressSanitizer+UBSan on generated, mutated, truncated and pathological inputs",
     text=("PARTIAL. Kernel-checked: advancing the cursor any number of times keeps it inside the input and reading at the end yields the sentinel "
           "[cursor_stays_in_buffer, peek_total]; a descent whose every level goes through Depth_Counter never runs deeper than the limit and returns the "
           "depth error exactly when the nesting exceeds it [guarded_descent_bounded, guarded_descent_reports]; the call graph of the parser's member functions, regenerated "
           "from chaiscript_parser.hpp on every run together with a rank certificate, has no cycle that avoids a function holding a named Depth_Counter constructed before its "
           "first call [parser_cycles_are_guarded, kernel evaluation], so every native call stack of the parser, for every input, has at most (limit+1)(maxRank+2)+maxRank+1 "
           "frames [guarded_graph_stack_bounded, parser_native_stack_bounded]; parse_internal's acceptance rule returns a tree "
-          "only when every byte was consumed [accepted_means_whole_input]. NOT proved (a theorem about 2,500 lines of hand-written recursive descent is out of "
+          "only when every byte was consumed [accepted_means_whole_input]. THE BOTTOM OF THE LEXER [Props/C01Ws over Model/Ws = SkipWS / SkipComment, which every token function "
+          "calls first]: for every byte string, start position and flavour the loop ends with the cursor between its start and the end of the buffer "
+          "[skipWS_stays_in_buffer], always terminates (the remaining length is enough fuel) [skipWS_never_out_of_fuel, skip_total], passes over nothing but blanks, line ends "
+          "when asked to, and whole comments [skipWS_drops_only_blanks_and_comments], stops only at the end or at a legal byte that is not blank and starts no comment "
+          "[skipWS_stops_at_token_start]; a // or # comment never passes a line feed and stops exactly at its line end [line_comment_stays_on_its_line, "
+          "line_comment_stops_at_line_end]; a block comment ends at the FIRST */ [block_comment_ends_at_first_close]. Tied by calling the real SkipWS through the hook on a "
+          "buffer with no terminator behind it (ASan sees any read past the end) from every start index: return value, cursor index, line and column must equal the model's and "
+          "an independent regex reading. NOT proved (a theorem about 2,500 lines of hand-written recursive descent is out of "
           "reach here): termination, memory safety and exception discipline of the grammar functions. Those are explored on the real parser built with "
           "clang -fsanitize=address,undefined, with no engine in the way: the repository's scripts, its never-run AFL corpus, byte-level mutations and "
           "truncations of them, bracket soup, every escape-sequence shape in string/char literals and interpolations, nesting of 24 bracket-like constructs to depths "
@@ -23,7 +30,7 @@ META = dict(
           "survives (no sanitizer report, no stack exhaustion, no std::terminate), the only exception type leaving parse is eval_error, and on success the "
           "cursor is at the end of the input, the File node ends at the (line, column) of the input's end, the depth counter is back to 0 and the match "
           "stack is empty."),
-    note=("Trusted: Lean kernel; Model/Pos.lean; Model/ParseGraph.lean and extract/e_parsegraph.py (a syntactic call graph of the member functions of ChaiScript_Parser reachable from "
+    note=("Trusted: Lean kernel; Model/Pos.lean; Model/Ws.lean (hand transcription of SkipWS / SkipComment / Symbol_ / Eol_ as used there; tied by correspondence); Model/ParseGraph.lean and extract/e_parsegraph.py (a syntactic call graph of the member functions of ChaiScript_Parser reachable from "
           "parse_internal: calls on other objects, e.g. Char_Parser or Position, are not edges; overloads are merged; the stack bound counts parser frames, not bytes); gen/parseinputs.py; harness/parsefuzz.cpp; clang 14 sanitizers (signed overflow and shift checks off: constant folding does C++ arithmetic at parse time and C05 excludes non-trapping undefined results by name); hook commit 1ac80a4 (friend Access in the parser). "
           "Exploration is not a proof: an input class never generated is not covered."),
     design_ref="DESIGN.md §6 C01")
@@ -39,10 +46,72 @@ def line_col(b):
     return line, col
 
 
+# ---------------------------------------------------------------- M-WS: SkipWS / SkipComment alone
+import re as _re
+_BLOCK = _re.compile(rb"/\*.*?(?:\*/|\Z)", _re.S)
+_LINE = _re.compile(rb"(?://|#)(?:(?!\r\n)[^\n])*")
+
+
+def ws_spec(b, i, cr):
+    """declarative reading of SkipWS: drop blanks, (if asked) line ends, block comments up to the first */, line comments up to their line end;
+    a byte above 0x7e where a token would start is illegal"""
+    moved = 0
+    while i < len(b):
+        c = b[i]
+        if c > 0x7e:
+            return "illegal %d" % i
+        if c in (0x20, 0x09):
+            i += 1
+        elif cr and c == 0x0a:
+            i += 1
+        elif cr and b[i:i + 2] == b"\r\n":
+            i += 2
+        else:
+            m = _BLOCK.match(b, i) or _LINE.match(b, i)
+            if not m:
+                break
+            i = m.end()
+        moved = 1
+    return "ok %d %d" % (moved, i)
+
+
+def line_col_at(b, i):
+    pre = b[:i]
+    return 1 + pre.count(b"\n"), 1 + len(pre) - (pre.rfind(b"\n") + 1)
+
+
+def ws_stage(ctx, exe, n):
+    rng = ctx.rng
+    alpha = [0x20, 0x20, 0x09, 0x0a, 0x0a, 0x0d, 0x2f, 0x2f, 0x2a, 0x2a, 0x23, 0x3b, 0x78, 0x00, 0x7e, 0x7f, 0x80, 0xff]
+    cases = []
+    for _ in range(n):
+        ln = rng.choice([0, 1, 2, 3, 5, 8, 13, 21, 40])
+        b = bytes(rng.choice(alpha) if not rng.chance(1, 12) else rng.below(256) for _ in range(ln))
+        if rng.chance(1, 3) and ln >= 2:      # plant whole comments
+            k = rng.below(ln)
+            b = b[:k] + rng.choice([b"/* x */", b"/*\r\n*/", b"// y\n", b"# z\r\n", b"/*", b"//", b"/**/", b"/*/", b"/* ; */", b"//\r", b"#\n#\n"]) + b[k:]
+        cases.append((b, rng.below(len(b) + 1), rng.chance(1, 2)))
+    lines = ["%s %d %d" % (b.hex() or "-", i, 1 if cr else 0) for b, i, cr in cases]
+    with ctx.timer("model"):
+        mout = C.run_driver("ws", lines)
+    with ctx.timer("impl"):
+        iout, _ = C.run_harness_resilient(exe, [], ["ws " + l for l in lines], timeout=900, stall=120)
+
+    def with_pos(o, b):
+        w = o.split()
+        if w and w[0] in ("ok", "illegal") and w[-1].isdigit():
+            return "%s %d %d" % ((o,) + line_col_at(b, int(w[-1])))
+        return o
+    ml = ["model=%s\tspec=%s" % (with_pos(m, b), with_pos(ws_spec(b, i, cr), b)) for m, (b, i, cr) in zip(mout, cases)]
+    for o in iout:
+        ctx.hist("ws_outcomes", o.split()[0] if o else "empty")
+    return C.compare_streams(ctx, "parsefuzz", ["ws " + l for l in lines], ml, iout, bucket=lambda line: "ws")
+
+
 def run(ctx):
     import e_parsegraph
     C.run_extractor(ctx, "parsegraph", e_parsegraph, "ParseGraph.lean")
-    status, text, rc = C.lean_obligations(ctx, ["C01"])
+    status, text, rc = C.lean_obligations(ctx, ["C01", "C01Ws"])
     with ctx.timer("harness_build"):
         exe, log = C.harness_build("parsefuzz")
     if exe is None:
@@ -88,6 +157,7 @@ def run(ctx):
                                         "how_to_replay": "echo <input_hex> | build/harness/parsefuzz/<bin>"})
     ctx.count("evaluations", len(ins))
     ctx.cov["distinct_nontrivial"] = len(nt)
+    found += ws_stage(ctx, exe, 40000 if thorough else 4000)
     ctx.cov["input_sizes"] = {"max": max(len(b) for b in ins), "median": sorted(len(b) for b in ins)[len(ins) // 2]}
     ctx.cov["rule"] = ("%d inputs: repository scripts and AFL corpus, mutations/truncations of them, snippet sequences, escape shapes, nesting to depth %d, bracket soup, raw "
                        "bytes; distinct = distinct byte strings; non-trivial = the parser ran to a verdict (tree or eval_error) under ASan+UBSan" % (len(ins), 100000 if thorough else 2000))
